@@ -715,6 +715,8 @@ pub(crate) fn env_add(id: TypeId, t: Type) {
     ENV.with(|e| e.borrow_mut().insert(id, t));
 }
 pub fn env_clear() {
+    #[cfg(feature = "verif-hooks")]
+    crate::verif::probe("env_clear");
     ENV.with(|e| e.borrow_mut().clear());
     DOC_ENV.with(|e| e.borrow_mut().clear());
 }
